@@ -249,6 +249,13 @@ func init() {
 		in.allocOb = a[1].(string)
 		return nil
 	})
+	reg(v+"Param", func(in *Interp, c *frame, fn *ssa.Function, a []value) value {
+		d := in.asInt(a[1], types.Typ[types.Int], "vf.Param")
+		if p, ok := in.cfg.Params[a[0].(string)]; ok {
+			d = p
+		}
+		return in.intConst(basicOf(types.Typ[types.Int]), big.NewInt(int64(d)))
+	})
 	reg(v+"Symbolic", func(in *Interp, c *frame, fn *ssa.Function, a []value) value {
 		return in.ctx.Bool(in.cfg.Concrete == nil)
 	})
